@@ -904,6 +904,16 @@ def check_k6_k7(chk, m, cfg):
         return
     ca = carg(fe)
     idx_ptr = paths.mkptr(("arg", ca), L["eval_index"][0])
+    # "the injection completes": the index walks the whole injected string, not one line of it, so it has to be able to count past
+    # any script a caller may inject.  The documented member is 16 bits (scripts below 64 KiB); an 8-bit index wraps at the 256th
+    # character, the walk starts again at the beginning and never reaches the terminating NUL - the first 256 characters are
+    # executed for ever
+    width = L["eval_index"][1] * 8
+    chk.ob("K7.eval-index-width", "console_eval[%s]" % cfg, width >= 16,
+           "the injection index is %d bits wide: scripts of up to %d characters complete" % (width, (1 << width) - 1) if width >= 16 else
+           "the injection index is only %d bits wide but indexes the whole injected string (several lines): at the %dth character it "
+           "wraps to 0, console_eval never sees the terminating NUL and re-executes the beginning of the script for ever"
+           % (width, 1 << width), fe.loc, fe.name)
     n_adv = 0
     for s0, p in paths.enumerate_segments(fe, m):
         for k, e in enumerate(p.events):
@@ -977,7 +987,12 @@ def spec_step(st, c, nargv):
     if mode == "C":
         if sp:
             return ("NUL", ("G", 0, argc))
-        return None                         # text glued to a closing quote
+        if qu:
+            return None                     # a quote glued to a closing quote
+        # unquoted text glued to a closing quote: the quote has been replaced by the terminator of the quoted argument, so this
+        # character can belong to no earlier argument - it is unquoted, non-blank text of the line and must start one (dropping it
+        # would make the arguments something other than "computed from the line")
+        return tok("W")
     raise AssertionError(mode)
 
 
